@@ -199,12 +199,14 @@ LeafParts(F) == {HolePart(n) : n \in 1..2} \cup
 BytesParts(F, id, offs, sizes) == {BytesPart(id, o, n) : o \in offs, n \in sizes}
 SeqsUpTo(S, k) == UNION {[1..m -> S] : m \in 1..k}
 BaseForest == (1 :> Chunk(B1)) @@ (2 :> Chunk(B2))
-(* "d1": depth 1, up to 3 leaf parts, ill-formed ones included (off + size beyond the blob).
+(* "obj": small trees for exploring the reader object.
+   "d1": depth 1, up to 3 leaf parts, ill-formed ones included (off + size beyond the blob).
    "d2": root of <= 2 parts over {3 leaf parts} + windows into node 102 (<= 2 leaf parts).
    "d3": a chain 101 -> 102 -> 103 with one extra leaf part at each level. *)
 SomeLeaves == {HolePart(1), BlobPart(1, 0, 3), BlobPart(1, 1, 1), BlobPart(2, 1, 1), BlobPart(2, 0, 1)}
 FamilyOf(fam) ==
-  CASE fam = "d1" -> {BaseForest @@ (Root :> Node("file", ps)) : ps \in SeqsUpTo(LeafParts(BaseForest), 3) \cup {<<>>}}
+  CASE fam = "obj" -> {BaseForest @@ (Root :> Node("file", ps)) : ps \in SeqsUpTo(SomeLeaves, 2) \cup {<<>>}}
+    [] fam = "d1" -> {BaseForest @@ (Root :> Node("file", ps)) : ps \in SeqsUpTo(LeafParts(BaseForest), 3) \cup {<<>>}}
     [] fam = "d2" -> {BaseForest @@ (102 :> Node("bytes", p2)) @@ (Root :> Node("file", p1)) :
                          p2 \in SeqsUpTo(SomeLeaves, 2),
                          p1 \in SeqsUpTo(SomeLeaves \cup BytesParts(BaseForest, 102, 0..3, 1..4), 2)}
@@ -227,6 +229,7 @@ RNext == /\ ReaderSteps
          /\ UNCHANGED <<wvars, svars>>
          /\ \/ \E w \in 0..2, o \in -2..2 : RSeek(w, o)
             \/ \E n \in 0..3 : RRead(n)
+         /\ rPos' <= SizeOf(rF, rRoot) + 2          \* bound for the model check only
 RSpec == RInit /\ [][RNext]_vars
 
 (* ---- what S checks on every tree of the family ---- *)
